@@ -20,6 +20,11 @@ import (
 
 var ErrClosed = errors.New("cannot use a CAR storage after closing")
 
+// ErrWriteFailed is returned by Put and Finalize after a write to the underlying writer failed
+// and the partially written bytes could not be removed (e.g. a non-seekable stream): continuing
+// would produce a corrupt CAR.
+var ErrWriteFailed = errors.New("cannot write to a CAR storage after a failed write that could not be undone")
+
 type ReaderAtWriterAt interface {
 	io.ReaderAt
 	io.Writer
@@ -58,7 +63,9 @@ type StorageCar struct {
 	opts       carv2.Options
 
 	closed bool
-	mu     sync.RWMutex
+	// writeFailed is set when a section write failed and its partial bytes could not be removed.
+	writeFailed bool
+	mu          sync.RWMutex
 }
 
 type positionedWriter interface {
@@ -321,6 +328,9 @@ func (sc *StorageCar) Put(ctx context.Context, keyStr string, data []byte) error
 	if !ok || sc.writer == nil {
 		return fmt.Errorf("cannot put into a read-only CAR")
 	}
+	if sc.writeFailed {
+		return ErrWriteFailed
+	}
 
 	if should, err := store.ShouldPut(
 		idx,
@@ -341,6 +351,7 @@ func (sc *StorageCar) Put(ctx context.Context, keyStr string, data []byte) error
 	}
 	n := uint64(w.Position())
 	if err := util.LdWrite(w, keyCid.Bytes(), data); err != nil {
+		sc.undoPartialWrite(n)
 		return err
 	}
 	idx.InsertNoReplace(keyCid, n)
@@ -474,6 +485,10 @@ func (sc *StorageCar) Finalize() error {
 		return nil
 	}
 
+	if sc.hasWriteFailed() {
+		return ErrWriteFailed
+	}
+
 	if sc.opts.WriteAsCarV1 {
 		// A CARv1 needs no header or index written at the end, but it is complete now: refuse
 		// further use, exactly as a finalized CARv2 does.
@@ -500,6 +515,36 @@ func (sc *StorageCar) Finalize() error {
 	sc.closed = true
 
 	return store.Finalize(wat, sc.header, idx, uint64(sc.dataWriter.Position()), sc.opts.StoreIdentityCIDs, sc.opts.IndexCodec)
+}
+
+func (sc *StorageCar) hasWriteFailed() bool {
+	sc.mu.RLock()
+	defer sc.mu.RUnlock()
+	return sc.writeFailed
+}
+
+// undoPartialWrite restores the writer to its state before a failed section write that began at
+// payload offset n: the write position is moved back and the partial bytes are cut off. This needs
+// a target that can seek and truncate; for any other target (e.g. a plain stream) the partial
+// bytes cannot be taken back, so the CAR refuses further writes and finalization rather than
+// produce a corrupt archive. The caller holds sc.mu.
+func (sc *StorageCar) undoPartialWrite(n uint64) {
+	if sc.dataWriter != nil {
+		if ptw, ok := sc.writer.(*positionTrackingWriter); ok {
+			if t, ok := ptw.w.(interface{ Truncate(size int64) error }); ok {
+				base := int64(sc.header.DataOffset)
+				if sc.opts.WriteAsCarV1 {
+					base = 0
+				}
+				if _, err := sc.dataWriter.Seek(int64(n), io.SeekStart); err == nil {
+					if err := t.Truncate(base + int64(n)); err == nil {
+						return
+					}
+				}
+			}
+		}
+	}
+	sc.writeFailed = true
 }
 
 type positionTrackingWriter struct {
